@@ -213,6 +213,9 @@ def run_arm(task):
             except Exception as ex:
                 res['inconclusive'] = 'cannot unpack result: %r' % ex
                 return res
+            res.setdefault('out_variants', [])
+            if variant not in res['out_variants']:
+                res['out_variants'].append(variant)
             for i in range(n):
                 nul, er, val, soft = specs[i]
                 oraw, ovalid = orows[i]
